@@ -92,6 +92,21 @@ def run(ctx):
     for v in range(0, 41):
         b = gen.int_to_bytes(v)
         dags.append(gen_dag.Dag([("a", b, "a"), ("a", b, "h"), ("p", 0, 1), ("a", b, "h"), ("p", 2, 3)], 4))
+    # near-collisions: atoms of the same length that differ in one bit (every bit of the first and last byte),
+    # and atoms that differ only by a leading / trailing zero byte - any lossy key for the atom table
+    # (packed words, length tags, truncated hashes) merges some of these
+    for ln in (1, 2, 3, 4, 5, 7, 8, 9, 15, 16, 17, 31, 32, 33):
+        base = bytes(r.getrandbits(8) for _ in range(ln))
+        vs = [base]
+        for pos in {0, ln - 1}:
+            for bit in range(8):
+                v = bytearray(base); v[pos] ^= 1 << bit; vs.append(bytes(v))
+        vs += [b"\x00" + base, base + b"\x00", base[:-1], base[1:]]
+        nodes = [("a", v, r.choice("ah")) for v in vs]
+        top = 0
+        for i in range(1, len(vs)):
+            nodes.append(("p", top, i)); top = len(nodes) - 1
+        dags.append(gen_dag.Dag(nodes, top))
     cases = []
     full = []
     for d in dags:
